@@ -14,7 +14,7 @@ ALSO = ()
 INSITU = {"k": "tokenisation"}
 TECHNIQUE = "runtime monitoring: differential observer (chunked vs whole tokenisation, compared after detokenise) + history monitor on the carried state dictionary"
 RULE = ("seeded pieces laid out as bars (through the real sequences_split_bars with both re-quantisation settings, or Bars built "
-        "directly), with empty bars, bars filled by one note held from the first tick to the bar line, signature changes and tracks of unequal length, x ALL 2^(n-1) partitions of the n <= 7 bars into "
+        "directly), with empty bars, control / program changes (also on the final tick of a shorter track that ends on the bar line closing a silent bar), bars filled by one note held from the first tick to the bar line, signature changes and tracks of unequal length, x ALL 2^(n-1) partitions of the n <= 7 bars into "
         "consecutive call groups (64 random partitions beyond) x configurations; each partition's concatenated token stream must "
         "detokenise to the same notes, bar grid (signatures in force and cap ticks) and duration as the single-call stream; after "
         "each call the state dictionary must say: clock = sum of bar lengths consumed, in-bar clock 0, remaining capacity a whole "
@@ -22,7 +22,7 @@ RULE = ("seeded pieces laid out as bars (through the real sequences_split_bars w
 PLAN = {"quick": {"cases": 700, "jobs": 4, "timeout": 900},
         "thorough": {"cases": 200000, "jobs": 16, "timeout": 3000, "budget_s": 360}}
 FLOORS = {"quick": {"c03.partitions_compared": 6000, "c03.state_checked": 15000, "#c03.flags.": 16, "c03.signature_change": 100,
-                    "c03.empty_bar": 100, "c03.whole_bar_note": 40},
+                    "c03.empty_bar": 100, "c03.whole_bar_note": 40, "c03.piece_with_control_events": 150},
           "thorough": {"c03.partitions_compared": 300000, "#c03.flags.": 16}}
 GRID = lambda x: x % 4 == 0 or x % 6 == 0  # noqa: E731
 
@@ -49,6 +49,35 @@ def make_case(rng, i, tier):
             for (b0, bl, sig) in pc["bars"]:
                 if rng.random() < 0.5:
                     t["notes"] = [n for n in t["notes"] if not (b0 <= n[2] < b0 + bl)]
+    if route in ("split_q", "split_noq"):
+        # control / program changes (the tokeniser ignores them, but they are messages of the bars it is handed: they decide
+        # where a bar's sequence ends and whether it ends in a rest); a separate random stream keeps the other cases as they were
+        import random
+        r2 = random.Random(f"c03-controls:{i}")
+        bars = pc["bars"]
+        if len(pc["tracks"]) >= 2 and len(bars) >= 3 and r2.random() < 0.4:
+            # a bar that is silent in every track, on whose closing bar line a shorter track ends with a control change on its
+            # final tick, while another track plays on
+            j = r2.randrange(1, len(bars) - 1)
+            b0, bl, _sig = bars[j]
+            for t in pc["tracks"]:
+                t["notes"] = [n for n in t["notes"] if n[2] + n[3] <= b0 or n[2] >= b0 + bl]
+            short = pc["tracks"][-1]
+            short["notes"] = [n for n in short["notes"] if n[2] + n[3] <= b0]
+            short["pad"] = b0 + bl
+            short["extra"] = [e for e in short.get("extra", []) if e[1] <= b0 + bl] + [[r2.choice(["cc", "pc"]), b0 + bl, 0, 64, 0][:5]]
+            if short["extra"][-1][0] == "pc":
+                short["extra"][-1] = ["pc", b0 + bl, 0, 5]
+            other = pc["tracks"][0]
+            if not any(n[2] >= b0 + bl for n in other["notes"]):
+                other["notes"].append([0, 60, b0 + bl, 12, 70])
+        for t in pc["tracks"]:
+            tend = gen.end_of(t)
+            for _ in range(r2.choice([0, 0, 1, 2])):
+                tick = r2.choice([tend, r2.randrange(0, tend + 1)] + [b[0] for b in bars if b[0] <= tend])
+                t.setdefault("extra", []).append(["cc", tick, 0, r2.randrange(1, 100), r2.randrange(0, 127)])
+            if any(e[0] in ("cc", "pc") for e in t.get("extra", [])):
+                pc["controls"] = True
     if route == "raw":
         # chunks are plain pieces of the whole-bar padded tracks (no Bar objects, hence no signature event at every bar
         # start): the carried state dictionary is the only memory of the signature in force
@@ -77,6 +106,8 @@ def run(case, ctx):
     fails = []
     tok = tc.make_tok(cfg)
     LOG.n("c03.flags." + "".join("1" if x else "0" for x in cfg["flags"]))
+    if pc.get("controls"):
+        LOG.n("c03.piece_with_control_events")
     seqs = [gen.build_seq(t) for t in pc["tracks"]]
     raw = case["route"] == "raw"
     if raw:
